@@ -196,8 +196,8 @@ const DEF_U: &str = "CREATE TABLE u(line = '^(\\\\S+) (\\\\S+)$', line[1] => uk 
 
 fn tokens(ty: &str) -> Vec<&'static str> {
     match ty {
-        "REAL" => vec!["0.0", "-0.0", "1.0", "1", "NaN", "inf", "-inf", "x", "1e308", "-1.5"],
-        "INT" => vec!["0", "1", "-1", "9223372036854775807", "-9223372036854775808", "x", "007", "7"],
+        "REAL" => vec!["0.0", "-0.0", "1.0", "1", "NaN", "inf", "-inf", "x", "1e308", "-1.5", "1e19", "2e19"],
+        "INT" => vec!["0", "1", "-1", "9223372036854775807", "-9223372036854775808", "x", "007", "7", "9007199254740993", "9007199254740992"],
         "TEXT" => vec!["a", "A", "é", "aa", "b"],
         _ => unreachable!(),
     }
@@ -374,8 +374,8 @@ fn layer_b_case(ty: &str, seq: &[u8]) -> (Vec<Failure>, bool) {
             }
         }
         // join lookup (REAL only): main row key a=vals[0], joined row key y=vals[1] -> match iff same class (non-NULL)
-        if ty == "REAL" {
-            let both = format!("{}\n{}", DEF_R, DEF_U);
+        if ty == "REAL" || ty == "INT" {
+            let both = if ty == "REAL" { format!("{}\n{}", DEF_R, DEF_U) } else { format!("{}\n{}", DEF_I, DEF_U.replace("y REAL", "y INT")) };
             let jt = sut::make_tables(&both).expect("defs");
             let tmp = sut::TempFiles::new(&[format!("u {}\n", vals[1]).as_bytes()]);
             let stmt = format!("SELECT k, y FROM t INNER JOIN u::'{}' ON t.a = u.y", tmp.paths[0]);
@@ -386,7 +386,7 @@ fn layer_b_case(ty: &str, seq: &[u8]) -> (Vec<Failure>, bool) {
             if got != Ok(expect) {
                 out.push(fail(
                     format!("consumer:join-lookup:{}:{}", ty, kinds.join(",")),
-                    format!("join on REAL keys ({}, {}) produced {:?} rows, expected {}", vals[0], vals[1], got, expect),
+                    format!("join on {} keys ({}, {}) produced {:?} rows, expected {}", ty, vals[0], vals[1], got, expect),
                     json!({"layer": "B", "type": ty, "seq": seq, "tokens": vals, "statement": "join-lookup"}),
                     json!(expect),
                     sut::outcome_json(&o, |t| t.to_json()),
@@ -471,6 +471,66 @@ fn layer_c_case(it: &str, rt: &str) -> Vec<Failure> {
         }
     }
     out
+}
+
+const DEF_ARR: &str = "CREATE TABLE t(line = '^(\\\\S+) (\\\\S+)$', line[1], line[2] => ai INT[], line[1], line[2] => ar REAL[], line[1], line[2] => at TEXT[], line[1] => k TEXT);";
+/// array-valued operands with their element kind (i = INT, r = REAL, t = TEXT, n = nested)
+const ARR_OPERANDS: [(&str, char); 9] = [("ai", 'i'), ("ar", 'r'), ("at", 't'), ("ARRAY[1, 2]", 'i'), ("ARRAY[1.0, 2.0]", 'r'), ("ARRAY['1', '2']", 't'), ("ARRAY[ARRAY[1]]", 'n'), ("ARRAY[2, 1]", 'i'), ("ARRAY[1.0]", 'r')];
+
+/// layer D: two array operands in WHERE. Same element type: exactly one of <, =, > holds and the other operators follow
+/// from it; different element types: an error (INT[] against REAL[] may instead compare numerically, consistently);
+/// never a truth value derived from the types
+fn layer_d_case(x: usize, y: usize, line: &str) -> Vec<Failure> {
+    let tables = sut::make_tables(DEF_ARR).unwrap();
+    let (lx, kx) = ARR_OPERANDS[x];
+    let (ly, ky) = ARR_OPERANDS[y];
+    let mut truth: Vec<Result<bool, String>> = Vec::new();
+    for op in ["<", "=", ">", "<=", ">=", "!="] {
+        let stmt = format!("SELECT k FROM t WHERE {} {} {}", lx, op, ly);
+        let st = sut::parse(&stmt).expect(&stmt);
+        truth.push(count_rows(&sut::run_batch(&tables, &st, &[line])).map(|n| n == 1));
+    }
+    let case = json!({"layer": "D", "x": x, "y": y, "line": line});
+    let all_err = truth.iter().all(|t| t.is_err());
+    let all_ok = truth.iter().all(|t| t.is_ok());
+    let mut out = Vec::new();
+    let same = kx == ky;
+    let numeric_mix = (kx == 'i' && ky == 'r') || (kx == 'r' && ky == 'i');
+    let consistent = || {
+        let t: Vec<bool> = truth.iter().map(|t| *t.as_ref().unwrap()).collect();
+        let (lt, eq, gt, le, ge, ne) = (t[0], t[1], t[2], t[3], t[4], t[5]);
+        (lt as u8 + eq as u8 + gt as u8) == 1 && le == (lt || eq) && ge == (gt || eq) && ne == !eq
+    };
+    let good = if same { all_ok && consistent() } else if numeric_mix { all_err || (all_ok && consistent()) } else { all_err };
+    if !good {
+        out.push(fail(
+            format!("consumer:array-comparison:{}-vs-{}:{}", kx, ky, if all_ok { "truth-values" } else if all_err { "errors" } else { "mixed" }),
+            format!("`{}` against `{}` on {:?}: <, =, >, <=, >=, != gave {:?}", lx, ly, line, truth),
+            case,
+            json!(if same { "exactly one of <, =, > and the derived operators" } else { "an error for every operator" }),
+            json!(format!("{:?}", truth)),
+            (x + y) as u64,
+        ));
+    }
+    if numeric_mix && all_ok {
+        // numeric comparison element by element: [1, 2] against [1.0, 2.0] must be equal
+        let (a, b): (Vec<f64>, Vec<f64>) = (arr_numbers(lx, line), arr_numbers(ly, line));
+        if !a.is_empty() && !b.is_empty() {
+            let eq_expected = a == b;
+            if truth[1] != Ok(eq_expected) {
+                out.push(fail("consumer:array-comparison:int-vs-real:not-numeric".into(), format!("`{} = {}` on {:?} gave {:?}; by numeric value the arrays are {}", lx, ly, line, truth[1], if eq_expected { "equal" } else { "different" }), json!({"layer": "D", "x": x, "y": y, "line": line}), json!(eq_expected), json!(format!("{:?}", truth[1])), (x + y) as u64));
+            }
+        }
+    }
+    out
+}
+
+fn arr_numbers(operand: &str, line: &str) -> Vec<f64> {
+    if operand.starts_with("ARRAY[") {
+        operand.trim_start_matches("ARRAY[").trim_end_matches(']').split(',').filter_map(|t| t.trim().parse::<f64>().ok()).collect()
+    } else {
+        line.split(' ').filter_map(|t| t.parse::<f64>().ok()).collect()
+    }
 }
 
 fn flip(op: &str) -> String {
@@ -575,12 +635,27 @@ pub fn run(ctx: &Ctx) -> i32 {
     col.layer("C-int-vs-real", n_c, true, json!({"ints": INT_TOKS, "reals": REAL_TOKS}));
     col.sample(json!({"layer": "C", "int": "9007199254740993", "real": "9007199254740992.0"}));
 
+    let mut n_d = 0;
+    for x in 0..ARR_OPERANDS.len() {
+        for y in 0..ARR_OPERANDS.len() {
+            for line in ["1 2", "2 1", "1 1"] {
+                n_d += 1;
+                col.eval(6);
+                col.nontrivial(h64(&("D", x, y, line)));
+                for f in layer_d_case(x, y, line) {
+                    col.fail(f);
+                }
+            }
+        }
+    }
+    col.layer("D-array-operands", n_d, true, json!({"operands": ARR_OPERANDS.iter().map(|o| o.0).collect::<Vec<_>>(), "lines": ["1 2", "2 1", "1 1"]}));
+
     finish(
         ctx,
         &col,
         Finish {
             level: "exploration",
-            rule: "Layer A: all same-type pairs and triples of a labelled Value domain, laws evaluated on Value's own operators (non-trivial: not all elements identical). Layer B: all token sequences up to the length bound per type through GROUP BY / DISTINCT / COUNT(DISTINCT) / array_unique / WHERE / JOIN (non-trivial: >=2 different tokens of which at least two fall in one reference class or a NULL is present). Layer C: all INT x REAL token pairs x 6 comparison operators x both operand orders.".into(),
+            rule: "Layer D: all ordered pairs of 9 array-valued operands (INT[], REAL[], TEXT[] columns and constructors, nested) x 3 rows x 6 comparison operators in WHERE. Layer A: all same-type pairs and triples of a labelled Value domain, laws evaluated on Value's own operators (non-trivial: not all elements identical). Layer B: all token sequences up to the length bound per type through GROUP BY / DISTINCT / COUNT(DISTINCT) / array_unique / WHERE / JOIN (non-trivial: >=2 different tokens of which at least two fall in one reference class or a NULL is present). Layer C: all INT x REAL token pairs x 6 comparison operators x both operand orders.".into(),
             exhaustive: true,
             assumptions: vec!["TZ=UTC".into(), "reference equality: numeric equality with all NaNs in one class and -0.0 = 0.0; text by code point".into()],
             bounds: json!({"domain": d.iter().map(|x| x.0.clone()).collect::<Vec<_>>(), "consumer_max_len": maxlen}),
@@ -591,6 +666,7 @@ pub fn run(ctx: &Ctx) -> i32 {
 pub fn replay(case: &J) -> Vec<Failure> {
     match case["layer"].as_str() {
         Some("A") => layer_a_case(case["i"].as_u64().unwrap() as usize, case["j"].as_u64().unwrap() as usize, case["k"].as_u64().map(|k| k as usize)),
+        Some("D") => layer_d_case(case["x"].as_u64().unwrap() as usize, case["y"].as_u64().unwrap() as usize, case["line"].as_str().unwrap()),
         Some("B") => {
             let seq: Vec<u8> = case["seq"].as_array().unwrap().iter().map(|x| x.as_u64().unwrap() as u8).collect();
             let ty = case["type"].as_str().unwrap().to_string();
